@@ -204,10 +204,11 @@ func propC07(a *Analysis, r *Registry) {
 						continue
 					}
 					c := fc.Val(f.Cond)
-					if v.Equal(lo) && c.Equal(env.MustParse("loX==-stats.inf")) {
+					// (under loX == -inf, returning loX and returning -inf are the same value)
+					if (v.Equal(lo) || v.Equal(env.MustParse("-stats.inf"))) && c.Equal(env.MustParse("loX==-stats.inf")) {
 						nInf++
 					}
-					if v.Equal(hi) && c.Equal(env.MustParse("hiX==stats.inf")) {
+					if (v.Equal(hi) || v.Equal(env.MustParse("stats.inf"))) && c.Equal(env.MustParse("hiX==stats.inf")) {
 						nInf++
 					}
 				}
@@ -349,13 +350,33 @@ func propC07(a *Analysis, r *Registry) {
 			env := X.EnvFor(fn, "r")
 			env.Set("dist", X.ParamRF(parent, 0), parent.Params[0].Type())
 			rv := fc.RetVal(0)
-			at := rv.SingleAtom()
-			if at == nil || at.Name != "apply" || len(at.Args) != 2 {
+			// the result is InvCDF(dist) applied to one value y: every alternative of the returned
+			// value (InvCDF may hand back the distribution's own inverse or its generic closure)
+			// is an application to the same last argument
+			var y *RF
+			okShape := true
+			var leaves func(v *RF)
+			leaves = func(v *RF) {
+				at := v.SingleAtom()
+				switch {
+				case at != nil && at.Name == "ite" && len(at.Args) == 3:
+					leaves(at.Args[1])
+					leaves(at.Args[2])
+				case at != nil && (at.Name == "apply" || strings.HasPrefix(at.Name, "call:")) && len(at.Args) == 2:
+					if y != nil && !y.Equal(at.Args[1]) {
+						okShape = false
+					}
+					y = at.Args[1]
+				default:
+					okShape = false
+				}
+			}
+			leaves(rv)
+			if !okShape || y == nil {
 				r.Fail("B-C07 rand", name+"/result", b.pos(fn), "the closure does not return inv(y): "+clip(rv.String(), 200))
 				return
 			}
-			b.Eq("B-C07 rand", name+"/inverse-of-same-dist", b.pos(fn), at.Args[0], env, "InvCDF(dist)")
-			y := at.Args[1]
+			b.EqRF("B-C07 rand", name+"/inverse-of-same-dist", b.pos(fn), rv, X.applyValue(env.MustParse("InvCDF(dist)"), []*RF{y}, 0), "returns InvCDF(dist) applied to the draw")
 			env.Set("y", y, nil)
 			checkDraw := func(dfc *FC, yn *RF, renv *SpecEnv) {
 				draws := append(FindFn(yn, "call:Float64"), FindFn(yn, "math/rand.Float64")...)
@@ -408,6 +429,9 @@ func propC07(a *Analysis, r *Registry) {
 						}
 					}
 					u := hfc.Val(rets[0].Results[0])
+					if hfc == fc {
+						u = y // the closure itself loops and returns inv(u) from inside the loop
+					}
 					henv := X.EnvFor(fn, "r")
 					checkDraw(hfc, u, henv)
 					henv.Set("u", u, nil)
